@@ -6,6 +6,7 @@ A history is a list of process lifetimes on one local store, started on empty di
   kill  : the process evaluates the pipeline and is killed before its i-th file-system operation (in the middle of it when
           it is a write and half is set); when it has fewer operations it simply runs to completion (and is checked);
   probe : the process only loads the paths (no evaluation);
+  init  : the process only configures the store (which creates its directories) and ends;
   else  : the process evaluates the pipeline, then loads every path.
 What the property demands of every history (the expected values are those of an uncrashed evaluation of the same code
 version on a bare store, cross-checked against plain execution without dds by the caller):
@@ -54,8 +55,11 @@ class Server(object):
         if not line.startswith("@@READY@@"):
             raise RuntimeError("process server did not start: " + line[:300])
 
-    def run(self, base, actions, pid=None, gate=None):
-        store = {"kind": "local", "internal_dir": os.path.join(base, "internal"), "data_dir": os.path.join(base, "data")}
+    def run(self, base, actions, pid=None, gate=None, layout=None):
+        internal, data, roots = store_dirs(base, layout)
+        store = {"kind": "local", "internal_dir": internal, "data_dir": data}
+        if gate and roots:
+            gate = dict(gate, roots=roots)     # every operation under the volume is a crash point, not only those under the two directories
         self.p.stdin.write(json.dumps({"store": store, "actions": actions, "gate": gate, "pid": pid}) + "\n")
         self.p.stdin.flush()
         while True:
@@ -75,7 +79,38 @@ class Server(object):
         shutil.rmtree(self.root, ignore_errors=True)
 
 
-def run_process(version, base, actions, pid=None, gate=None):
+def store_dirs(base, layout):
+    """(internal_dir, data_dir, roots of the interposition or None) of a history run under base.  Without a layout: the two
+    sibling directories <base>/internal and <base>/data, not yet existing.  With a layout (c06_layout.py): the two names of
+    the layout under the volume <base>/vol, which exists when the first process starts and holds what the layout puts there."""
+    if not layout:
+        return os.path.join(base, "internal"), os.path.join(base, "data"), None
+    vol = os.path.join(base, "vol")
+    return os.path.join(vol, layout["internal"]), os.path.join(vol, layout["data"]), [vol]
+
+
+def prepare_layout(base, layout):
+    """What exists on the volume before the first process of the history starts."""
+    if not layout:
+        return
+    vol = os.path.join(base, "vol")
+    os.makedirs(vol)
+    for e in layout.get("pre", []):
+        fp = os.path.join(vol, e[1])
+        if e[0] == "dir":
+            os.makedirs(fp, exist_ok=True)
+        elif e[0] == "file":
+            os.makedirs(os.path.dirname(fp), exist_ok=True)
+            with open(fp, "w") as f:
+                f.write(e[2])
+        elif e[0] == "link":
+            os.makedirs(os.path.dirname(fp), exist_ok=True)
+            os.symlink(os.path.join(vol, e[2]), fp)
+        else:
+            raise ValueError(e[0])
+
+
+def run_process(version, base, actions, pid=None, gate=None, layout=None):
     """One process lifetime, in a server of the pool (at most one server per version and worker thread is ever started)."""
     with _lock:
         srv = _idle.setdefault(version, []).pop() if _idle.get(version) else None
@@ -83,7 +118,7 @@ def run_process(version, base, actions, pid=None, gate=None):
         srv = Server(version)
         with _lock:
             _servers.append(srv)
-    r = srv.run(base, actions, pid, gate)     # a server that fails is not used again
+    r = srv.run(base, actions, pid, gate, layout)     # a server that fails is not used again
     with _lock:
         _idle.setdefault(version, []).append(srv)
     return r
@@ -101,10 +136,10 @@ _HEX32 = re.compile(r"(?<![0-9a-f])[0-9a-f]{32}(?![0-9a-f])")
 _DIGITS = re.compile(rb"\d{6,}")
 
 
-def state_digest(base):
+def state_digest(base, subs=("internal", "data")):
     """The directory state left by a history, up to the random part of names and the time stamps: what a later process can see."""
     items = []
-    for sub in ("internal", "data"):
+    for sub in subs:
         top = os.path.join(base, sub)
         for d, dirs, files in os.walk(top):
             for n in dirs + files:
@@ -132,8 +167,9 @@ def obj_kind(op):
     return "dir"
 
 
-def run_history(hist, ref):
-    """Runs a history on empty directories.  Returns {"problems": [[kind, step, detail]], "killed": [...], "ops": {step: killed
+def run_history(hist, ref, layout=None):
+    """Runs a history on empty directories (layout: on the directory layout of c06_layout.py instead).  Returns
+    {"problems": [[kind, step, detail]], "killed": [...], "ops": {step: killed
     operation}, "digests": {step: digest of the state left by the kill}, "leftovers": {...}, "traces": {step: operations of
     a completed traced process}}."""
     base = tempfile.mkdtemp(prefix="c06h_", dir=C.scratch_dir())
@@ -142,6 +178,7 @@ def run_history(hist, ref):
     allowed = dict((p, set()) for p in PATHS)
     completed = False
     try:
+        prepare_layout(base, layout)
         for n, st in enumerate(hist):
             if out["problems"]:
                 break                  # what follows a failing process is a consequence of it
@@ -158,21 +195,29 @@ def run_history(hist, ref):
                 return True
             if st.get("kill"):
                 logf = os.path.join(base, "gate.json")
-                rc, res, txt = run_process(v, base, [CALL], pid, {"mode": "crash", "crash_at": st["kill"][0], "half": bool(st["kill"][1]), "logfile": logf})
+                rc, res, txt = run_process(v, base, [CALL], pid, {"mode": "crash", "crash_at": st["kill"][0], "half": bool(st["kill"][1]), "logfile": logf}, layout)
                 out["killed"].append(rc == 77)
                 if rc == 77:
                     try:
                         out["ops"][n] = json.load(open(logf))[-1]
                     except (OSError, ValueError, IndexError):
                         out["ops"][n] = [st["kill"][0], "?", "?"]
-                    out["digests"][n], out["leftovers"][n] = state_digest(base)
+                    out["digests"][n], out["leftovers"][n] = state_digest(base, ("vol",) if layout else ("internal", "data"))
                     for p in PATHS:
                         allowed[p].add(vals[p])
                 elif check_eval(res, txt):
                     completed, allowed = True, dict((p, {vals[p]}) for p in PATHS)
+            elif st.get("init"):
+                # the process only configures the store (creation of the directories) and ends
+                out["killed"].append(False)
+                rc, res, txt = run_process(v, base, [], pid, {"mode": "trace"}, layout)
+                if res is None:
+                    out["problems"].append(["store-creation-died", n, txt[-300:].replace(base, "<store>")])
+                else:
+                    out["traces"][n] = res[-1]["gate_log"]
             elif st.get("probe"):
                 out["killed"].append(False)
-                rc, res, txt = run_process(v, base, LOADS, pid)
+                rc, res, txt = run_process(v, base, LOADS, pid, None, layout)
                 if res is None:
                     out["problems"].append(["load-process-died", n, txt[-300:]])
                     continue
@@ -181,7 +226,7 @@ def run_history(hist, ref):
                         out["problems"].append(["committed-path-lost-or-wrong:" + p, n, r["out"][:120]])
             else:
                 out["killed"].append(False)
-                rc, res, txt = run_process(v, base, [CALL] + LOADS, pid, {"mode": "trace"})
+                rc, res, txt = run_process(v, base, [CALL] + LOADS, pid, {"mode": "trace"}, layout)
                 if check_eval(res, txt):
                     for p, r in zip(PATHS, res[1:4]):
                         if r["out"] != vals[p]:
@@ -203,9 +248,9 @@ def eval_ops(gate_log):
 
 
 def safe_history(args):
-    hist, ref = args
+    hist, ref = args[:2]
     try:
-        return run_history(hist, ref)
+        return run_history(hist, ref, *args[2:])
     except Exception as e:  # noqa: reported by the caller as a harness error, never silently dropped
         return {"harness_error": type(e).__name__ + ": " + str(e)[:200], "problems": [], "killed": [], "ops": {}, "digests": {}, "leftovers": {}, "traces": {}}
 
@@ -222,6 +267,8 @@ def describe(hist, res):
                 s += f" killed {'in the middle of' if st['kill'][1] and op[1] == 'write' else 'before'} its operation {st['kill'][0]} {op[1:4]}"
             else:
                 s += f" evaluates (kill point {st['kill'][0]} not reached)"
+        elif st.get("init"):
+            s += " only configures the store"
         elif st.get("probe"):
             s += " loads the paths"
         else:
